@@ -1,6 +1,7 @@
 """C16 - script layout does not change what is built (specs/build/Layout.tla, LayoutCases.tla).
 
-A. For small complete programs TLC enumerates every layout reachable with MaxActs layout actions (indent, backslash
+A. For small complete programs (one of them in two files: a `load` command pulls in the second, whose last command may be
+   split before a connective, end in a comment, a blank line or a backslash continuation) TLC enumerates every layout reachable with MaxActs layout actions (indent, backslash
    split, connective split, blank / comment line, trailing comment) and checks Join(lines) = Cmds on each; deeper
    layouts are drawn at random with the same actions and judged by TLC as in B.  Every layout is printed as text, built with the real Builder and run for 6 ticks
    with the real Skedder; the projected house (before and after link resolution), the recorded run and the word lists
@@ -29,7 +30,14 @@ TRAIL = "  # trailing: it's a \"comment\" # with marks"
 COMMENT = "# comment line 'single \"double # hash"
 
 # small complete programs (one command per entry, words as written); they run for 6 ticks of 1/8 s
+SUBFILE = "vfsub.flo"
+# a plan in two files: the commands after `load` continue the framer the loaded file works on
+LOADED_SUB = ['go next if elapsed >= 0.125', 'frame f2', 'do vfrec at enter with tag "t2"', 'go f3 if elapsed >= 0.125',
+              'put 3 into .a.b of root']
 PROGRAMS = {
+    "loaded": [
+        'house hl', 'framer fm be active at 0.125 first f1', 'frame f1', 'do vfrec at recur with tag "t # 1"',
+        'load ' + SUBFILE, 'frame f3', 'bid stop me'],
     "compact": [
         'house hl', 'init .a.b with value 1', 'framer fm be active at 0.125 first f1',
         'frame f1', 'do vfrec at recur with tag "t # 1"', 'put 3 into .a.b of root',
@@ -94,6 +102,14 @@ def render(lines):
     return "\n".join(out) + "\n"
 
 
+def splice(cmds, subcmds):
+    """the commands the builder is handed: those of the loaded file follow the load command"""
+    if not subcmds:
+        return list(cmds)
+    k = next(i for i, c in enumerate(cmds) if c[0] == "load")
+    return list(cmds[:k + 1]) + list(subcmds) + list(cmds[k + 1:])
+
+
 def canonical(cmds):
     return [{"kind": "code", "toks": list(c), "ind": 0, "bs": False, "tc": False} for c in cmds]
 
@@ -149,14 +165,25 @@ def _digest(x):
 
 def eval_layout(text, run=True, full=False):
     """build (projection + dispatched words), then build again and run 6 ticks recording the events.
-    house / events are digests unless full (thousands of layouts are compared; the reference keeps the text)"""
-    r = B.build(text, want_dispatch=True)
+    house / events are digests unless full (thousands of layouts are compared; the reference keeps the text).
+    text is the script, or (script, text of the loaded file SUBFILE)"""
+    files = None
+    if isinstance(text, (tuple, list)):
+        text, subtext = text
+        files = {SUBFILE: subtext}
+    r = B.build(text, want_dispatch=True, files=files)
     house = json.dumps([r["pre"], r["post"]], sort_keys=True, default=repr)
     res = {"outcome": r["outcome"], "etype": r["etype"], "msg": r["msg"][:300], "where": r["where"], "dispatch": r["dispatch"],
            "house": house if full else _digest(house), "events": None}
     if run and r["outcome"] == "built":
         from ..flo import run as florun
-        rr = florun.run(_prog(), script=text, max_ticks=6)
+        wd = None
+        if files:
+            wd = os.path.join(env.subdir("c16run"), "d%d" % os.getpid())
+            os.makedirs(wd, exist_ok=True)
+            with open(os.path.join(wd, SUBFILE), "w") as f:
+                f.write(files[SUBFILE])
+        rr = florun.run(_prog(), script=text, max_ticks=6, workdir=wd)
         ev = json.dumps([rr["events"], rr["error"], rr.get("statuses")], sort_keys=True, default=repr)
         res["events"] = ev if full else _digest(ev)
     return res
@@ -268,7 +295,7 @@ def first_difference(text, reftext, key):
 
 
 def emitted(res):
-    return [json.loads(json.loads(ln)) for ln in res.out.splitlines() if ln.startswith('"{')]
+    return B.emitted_json(res.out)
 
 
 def cfg_text(maxacts, emit="all"):
@@ -299,31 +326,34 @@ def run_c16(ctx):
     cases = []
     maxacts = 2
     for name, prog in PROGRAMS.items():
-        # exhaustive enumeration: the compact program always, `transitions` in the thorough tier; `auxiliaries` (30 commands,
-        # tens of thousands of two-action layouts) only by random deeper layouts
-        depth_only = name == "auxiliaries" or (ctx.quick and name != "compact")
+        # exhaustive enumeration: the two-file program `loaded` always, `compact` and `transitions` in the thorough tier;
+        # `auxiliaries` (30 commands, tens of thousands of two-action layouts) only by random deeper layouts
+        depth_only = name == "auxiliaries" or (ctx.quick and name != "loaded")
         cmds = [words(c) for c in prog]
+        subcmds = [words(c) for c in LOADED_SUB] if name == "loaded" else []
+        full = splice(cmds, subcmds)          # what the builder is to be handed
         inp = os.path.join(work, name + ".json")
         with open(inp, "w") as f:
-            json.dump({"cmds": cmds}, f)
+            json.dump({"cmds": cmds, "sub": subcmds}, f)
         layouts = []
         if not depth_only:
-            res = tlc.run("Layout", cfg_text(maxacts), spec_dir=SPEC_DIR, extra_env={"LAYOUT_INPUT": inp}, tag="c16" + name)
-            ctx.add_model(res, "Layout/" + name, {"MaxActs": maxacts, "commands": len(cmds)})
+            # every distinct state prints its layout once
+            res, rows = B.run_emitting(lambda w: tlc.run("Layout", cfg_text(maxacts), spec_dir=SPEC_DIR, extra_env={"LAYOUT_INPUT": inp},
+                                                         tag="c16" + name, workers=w),
+                                       lambda r: r.distinct, "Layout/" + name)
+            ctx.add_model(res, "Layout/" + name, {"MaxActs": maxacts, "commands": len(cmds), "commands_loaded_file": len(subcmds)})
             if not res.ok:
                 ctx.diverge(Divergence("C16", "model", res.error_name or res.error, "Layout", "specification property violated in the model",
                                        steps=[{"action": a, "state": s} for a, s in res.trace]))
                 return
             tlc.require_coverage(res, ACTIONS, "Layout/" + name)
-            rows = emitted(res)
-            if len(rows) != res.distinct:
-                raise tlc.TlcError("Layout: %d layouts printed for %d distinct states" % (len(rows), res.distinct))
-            layouts = [r["lines"] for r in rows]
+            layouts = [{"lines": r["lines"], "sub": r["sub"]} for r in rows]
             nexh += len(layouts)
         # deeper layouts: the same actions applied at random here; TLC judges below (LayoutCases) that each is a layout
         # of the program by the documented reading
         ndeep = ctx.pick(120, 2500)
-        deep = [random_layout(rng, cmds, rng.randint(3, 14)) for _ in range(ndeep)]
+        deep = [{"lines": random_layout(rng, cmds, rng.randint(2, 12)),
+                 "sub": random_layout(rng, subcmds, rng.randint(1, 8)) if subcmds else []} for _ in range(ndeep)]
         seen = set()
         uniq = []
         for l in layouts + deep:
@@ -331,27 +361,34 @@ def run_c16(ctx):
             if k not in seen:
                 seen.add(k)
                 uniq.append(l)
-        texts = [render(l) for l in uniq]
-        ref = eval_layout(render(canonical(cmds)))
-        ref["text"] = render(canonical(cmds))
-        if ref["outcome"] != "built" or ref["dispatch"] != cmds:
+
+        def text_of(l):
+            return (render(l["lines"]), render(l["sub"])) if subcmds else render(l["lines"])
+
+        texts = [text_of(l) for l in uniq]
+        reftext = text_of({"lines": canonical(cmds), "sub": canonical(subcmds)})
+        ref = eval_layout(reftext)
+        ref["text"] = reftext
+        if ref["outcome"] != "built" or ref["dispatch"] != full:
             # one command per line, no indentation: the documented reading is the script itself
-            k = next((i for i, (a, b) in enumerate(zip(ref["dispatch"] or [], cmds)) if a != b), 0)
+            k = next((i for i, (a, b) in enumerate(zip(ref["dispatch"] or [], full)) if a != b), 0)
             ctx.diverge(Divergence("C16", "state-mismatch", "canonical", "dispatch" if ref["outcome"] == "built" else "outcome",
                                    "the canonical layout of program %s is not read as written: %s %s command %d read as %r" % (
                                        name, ref["etype"] or ref["outcome"], " ".join(ref["msg"].split())[:120], k + 1,
                                        (ref["dispatch"] or [None] * (k + 1))[k] if k < len(ref["dispatch"] or []) else None),
-                                   steps=[{"script": ref["text"]}], expected=cmds, actual=ref["dispatch"]))
+                                   steps=[{"script": ref["text"]}], expected=full, actual=ref["dispatch"]))
             continue
         if "Rec" not in eval_layout(ref["text"], full=True)["events"]:
             raise tlc.TlcError("C16 vacuous: the run of program %s records nothing" % name)
-        results = pmap(texts, True, nproc, cmds)
+        results = pmap(texts, True, nproc, full)
         for l, t, r in zip(uniq, texts, results):
-            compare(ctx, name, cmds, l, ref, r, t)
+            compare(ctx, name, full, l["lines"] + l["sub"], ref, r, t)
         for l, r in list(zip(uniq, results))[len(layouts):]:
-            cases.append({"lines": l, "cmds": cmds, "dispatched": cmds if r["dispatch"] is True else (r["dispatch"] or [])})
+            cases.append({"lines": l["lines"], "cmds": cmds, "sub": l["sub"], "subcmds": subcmds,
+                          "dispatched": full if r["dispatch"] is True else (r["dispatch"] or [])})
         total += len(uniq)
-        ctx.add_validated(len(uniq), {"program": name, "layout": describe(uniq[len(uniq) // 2], cmds), "text": texts[len(uniq) // 2][:400]})
+        mid = uniq[len(uniq) // 2]
+        ctx.add_validated(len(uniq), {"program": name, "layout": describe(mid["lines"] + mid["sub"], full), "text": str(texts[len(uniq) // 2])[:400]})
     # ---------------- B
     per_plan = ctx.pick(12, 150)
     nplans = 0
@@ -371,7 +408,7 @@ def run_c16(ctx):
         results = pmap(texts, False, nproc)
         for l, t, r in zip(lays, texts, results):
             compare(ctx, fname, cmds, l, ref, r, t)
-            cases.append({"lines": l, "cmds": cmds, "dispatched": r["dispatch"] or []})
+            cases.append({"lines": l, "cmds": cmds, "sub": [], "subcmds": [], "dispatched": r["dispatch"] or []})
         total += len(lays)
     if nplans < 20 and not ctx.divs:
         raise tlc.TlcError("C16 vacuous: only %d example plans build stand-alone" % nplans)
@@ -382,11 +419,13 @@ def run_c16(ctx):
         ctx.diverge(Divergence("C16", "rejected", name, "LayoutCases", "layout %d: %s" % (
             i, "the harness layout is not a layout of the script (harness error)" if name == "CaseLayoutOK" else
             "the words dispatched by the Builder are not the documented reading of the lines"),
-            steps=[{"script": render(c["lines"])}], expected=c["cmds"], actual=c["dispatched"]))
+            steps=[{"script": render(c["lines"]), "loaded_file": render(c["sub"]) if c["sub"] else ""}],
+            expected=splice(c["cmds"], c["subcmds"]), actual=c["dispatched"]))
     ctx.add_validated(len(cases) - len(bad), {"plan_layout": render(cases[len(cases) // 2]["lines"])[:400]})
     ctx.exhaustive = False
     ctx.extra.update({"layouts_built": total, "exhaustive_layouts": nexh, "plans": nplans, "plan_layouts": len(cases),
                       "evaluations": total, "distinct_nontrivial": total})
+    ctx.assume("the two-file program names its loaded file relative to its own directory; both files are laid out independently")
     ctx.assume("a comment is never put before a backslash continuation and no line is inserted directly after a backslash line "
                "(by the documented reading those change the script); load commands are not continued")
 
